@@ -38,7 +38,7 @@ def run(ctx):
                 m = r.choice(bands)
                 length = n
                 if ind in ("MAD", "CCI") and p >= 100:
-                    length = min(n, 200000 if ctx.thorough else 6000)     # O(period) per step
+                    length = min(n, (200000 if p < 1000 else 40000) if ctx.thorough else 6000)     # O(period) per step
                 if ctx.thorough and p == 1000 and ind not in ("MAD", "CCI"):
                     length = min(n, 400000)
                 every = max(1, length // (40 if not (ind in ("MAD", "CCI") and p >= 100) else 6))
